@@ -10,6 +10,7 @@ import (
 	"encoding/hex"
 	"fmt"
 	"math/rand"
+	"strconv"
 	"strings"
 
 	otr3 "github.com/coyim/otr3"
@@ -21,6 +22,8 @@ type gen struct {
 	dist map[string]int
 	// smp profile: craft the degenerate SMP message 2 in the next deviant scenario
 	forceDegenerate bool
+	// pure profile: number of piece-count boundary cases emitted so far (fragCountEdge)
+	fragEdges int
 }
 
 func (g *gen) bytesN(n int) []byte {
@@ -432,14 +435,180 @@ func (g *gen) fragCase() {
 	if size > hdr+1 && n/(size-hdr-1) > 300 && g.r.Intn(20) != 0 {
 		size = hdr + 1 + n/100 + 1
 	}
-	res := otr3.VerifFragment(v, itags, itagr, data, uint16(size))
-	g.out.emit(fmt.Sprintf("frag %d %d %d %d %s", v, itags, itagr, size, hx(data)), fragDigest(res))
-	g.dist[fmt.Sprintf("frag:pieces=%s", bucket(len(res)))]++
+	g.fragEmit(v, itags, itagr, size, data, "")
 	if g.r.Intn(4) == 0 {
 		i := g.r.Intn(70000)
 		t := g.r.Intn(70000)
 		g.out.emit(fmt.Sprintf("fragprefix %d %d %d %d %d", v, i, t, itags, itagr), hx(otr3.VerifFragmentPrefix(v, i, t, itags, itagr)))
 	}
+}
+
+// fragEmit runs Conversation.fragment on one input, emits the op for the model and checks the
+// result against the property (C14) on the Go side. `what` describes how the data was made when it
+// is too long to be quoted in a violation report.
+func (g *gen) fragEmit(v int, itags, itagr uint32, size int, data []byte, what string) {
+	res := otr3.VerifFragment(v, itags, itagr, data, uint16(size))
+	g.out.emit(fmt.Sprintf("frag %d %d %d %d %s", v, itags, itagr, size, hx(data)), fragDigest(res))
+	g.dist[fmt.Sprintf("frag:pieces=%s", bucket(len(res)))]++
+	g.fragOracle(v, itags, itagr, size, data, what, res)
+}
+
+// C14, sender side, on the implementation itself: for a fragment size that leaves room for at least
+// one payload byte after the header and the separator, the pieces are each no longer than the size,
+// every one of them is a fragment a receiver can read (index and total are 16 bit numbers, 1 <= k <= n),
+// they are numbered 1..n of n, and the payloads put together in order are the original message. A
+// message that would need more pieces than the 16 bit total can count goes out whole (that is what
+// the unchanged library does, and the only thing a peer can read); a message left whole although
+// fewer pieces would do is not bounded by the size.
+func (g *gen) fragOracle(v int, itags, itagr uint32, size int, data []byte, what string, res [][]byte) {
+	if olog == nil {
+		return
+	}
+	// payload bytes per piece: the size less the header ("?OTR,k,n," = 17 bytes,
+	// "?OTR|itag|itag,k,n," = 35 bytes) and the comma that ends the piece
+	room := size - len(otr3.VerifFragmentPrefix(v, 0, 1, itags, itagr)) - 1
+	l := len(data)
+	if room < 1 || l <= size {
+		return // no room for a payload byte, or nothing to split: nothing is demanded here
+	}
+	olog.ok("C14")
+	if what == "" {
+		what = fmt.Sprintf("%q", data)
+		if l > 80 {
+			what = fmt.Sprintf("%q… (random base64 characters)", data[:80])
+		}
+	}
+	in := fmt.Sprintf("Conversation.fragment, OTRv%d header (instance tags %08x|%08x), fragment size %d (payload per piece %d), encoded message of %d bytes = %s", v, itags, itagr, size, room, l, what)
+	needed := (l + room - 1) / room
+	whole := len(res) == 1 && string(res[0]) == string(data)
+	if whole {
+		if needed <= 65535 {
+			olog.viol("C14", "not-fragmented", fmt.Sprintf("%s: left whole although %d pieces would do", in, needed))
+		}
+		return
+	}
+	if len(res) > 65535 {
+		first, last := []byte{}, []byte{}
+		if len(res) > 0 {
+			first, last = res[0], res[len(res)-1]
+		}
+		olog.viol("C14", "piece-count-overflows-header", fmt.Sprintf("%s: %d pieces are produced, more than the 16 bit index and total of a fragment header can count: first piece %q, last piece %q - no receiver reads them (parseFragment of the last one: %s); the message can only be sent whole", in, len(res), first, last, otr3.VerifParseFragment(fragBodyOf(v, last))))
+		return
+	}
+	var joined []byte
+	for i, p := range res {
+		if len(p) > size {
+			olog.viol("C14", "piece-too-long", fmt.Sprintf("%s: piece %d of %d has %d bytes: %q", in, i+1, len(res), len(p), p))
+			return
+		}
+		parsed := otr3.VerifParseFragment(fragBodyOf(v, p))
+		f := strings.Split(parsed, " ") // "some <hex of the payload> <k> <n>"
+		ix, n := 0, 0
+		if len(f) == 4 {
+			ix, _ = strconv.Atoi(f[2])
+			n, _ = strconv.Atoi(f[3])
+		}
+		if len(f) != 4 || f[0] != "some" || ix < 1 || n < 1 || fragHeadOf(v, p) != fragHead(v, itags, itagr) {
+			olog.viol("C14", "piece-unreadable", fmt.Sprintf("%s: piece %d of %d = %q is not a fragment a receiver can read (parseFragment: %s)", in, i+1, len(res), p, parsed))
+			return
+		}
+		dh := f[1]
+		if ix != i+1 || n != len(res) {
+			olog.viol("C14", "pieces-misnumbered", fmt.Sprintf("%s: piece %d of %d = %q announces itself as %d of %d", in, i+1, len(res), p, ix, n))
+			return
+		}
+		if dh != "-" {
+			d, _ := hex.DecodeString(dh)
+			joined = append(joined, d...)
+		}
+	}
+	if string(joined) != string(data) {
+		olog.viol("C14", "reassembly-differs", fmt.Sprintf("%s: the payloads of the %d pieces put together in order are %d bytes and differ from the message (first difference at byte %d)", in, len(res), len(joined), firstDiff(joined, data)))
+	}
+}
+
+// the head of a fragment up to and including the first comma, as the sender must write it
+func fragHead(v int, itags, itagr uint32) string {
+	if v == 3 {
+		return fmt.Sprintf("?OTR|%08x|%08x,", itags, itagr)
+	}
+	return "?OTR,"
+}
+
+func fragHeadOf(v int, p []byte) string {
+	i := strings.IndexByte(string(p), ',')
+	return string(p[:i+1])
+}
+
+// what follows the head: "k,n,piece,"
+func fragBodyOf(v int, p []byte) []byte {
+	return p[len(fragHeadOf(v, p)):]
+}
+
+func firstDiff(a, b []byte) int {
+	i := 0
+	for i < len(a) && i < len(b) && a[i] == b[i] {
+		i++
+	}
+	return i
+}
+
+// Piece counts on and around the limit of the 16 bit fragment header: payload lengths r of one to a
+// few bytes per piece (both header formats) and message lengths l around 65535*r and 65536*r. Up to
+// l = 65535*r the message goes out in at most 65535 pieces; beyond, 65536 or more would be needed and
+// it can only go out whole. The cases alternate between
+//   - a length strictly between 65535*r and 65536*r (r >= 2), where the rounded-down quotient l/r is
+//     still 65535 although 65536 pieces would be needed: 65535*r+1, 65535*r+r-1 = 65536*r-1, or any
+//     other one, and
+//   - a length on the other side of either multiple: 65536*r or 65536*r+1 (whole), and now and then
+//     65535*r-1 or 65535*r (65535 pieces; with r = 1 only, since the model takes about nine seconds
+//     per payload byte to replay 65535 pieces).
+//
+// The data is the base64 alphabet repeated from a random letter on (cheap to make, neighbouring
+// pieces differ); the op carries it in hex as for every other frag case.
+func (g *gen) fragCountEdge() {
+	v := 2 + g.r.Intn(2)
+	hdr := 18 // "?OTR,k,n," and the comma that ends the piece
+	if v == 3 {
+		hdr = 36 // "?OTR|itag|itag,k,n," and the comma that ends the piece
+	}
+	itags := g.r.Uint32()
+	itagr := g.r.Uint32()
+	if g.r.Intn(3) == 0 {
+		itagr = 0
+	}
+	r := 2 + g.r.Intn(2)
+	if g.r.Intn(8) == 0 {
+		r = 4 + g.r.Intn(3)
+	}
+	var l int
+	kind := ""
+	inside := g.fragEdges%2 == 0
+	g.fragEdges++
+	switch {
+	case inside:
+		kind = "between-65535r-and-65536r"
+		l = 65535*r + []int{1, r - 1, 1 + g.r.Intn(r-1)}[g.r.Intn(3)]
+	case g.r.Intn(4) == 0:
+		kind = "at-most-65535r"
+		r = 1
+		l = 65535*r - g.r.Intn(2)
+	default:
+		kind = "at-least-65536r"
+		if g.r.Intn(4) == 0 {
+			r = 1
+		}
+		l = 65536*r + g.r.Intn(2)
+	}
+	const alphabet = "ABCDEFGHIJKLMNOPQRSTUVWXYZabcdefghijklmnopqrstuvwxyz0123456789+/"
+	rot := g.r.Intn(64)
+	data := make([]byte, l)
+	for i := range data {
+		data[i] = alphabet[(i+rot)%64]
+	}
+	what := fmt.Sprintf("the base64 alphabet A-Za-z0-9+/ repeated, from %q on (%q…)", alphabet[rot], data[:8])
+	g.dist["frag:count-edge:"+kind]++
+	g.fragEmit(v, itags, itagr, hdr+r, data, what)
 }
 
 func bucket(n int) string {
@@ -483,6 +652,10 @@ func runPure(seed int64, n int, out *emitter) map[string]int {
 	g := &gen{r: rand.New(rand.NewSource(seed)), out: out, dist: map[string]int{}}
 	for i := 0; i < n; i++ {
 		g.onePure()
+		// two long messages per 4000 operations whose piece count is at the limit of the fragment header
+		if i%2000 == 999 {
+			g.fragCountEdge()
+		}
 	}
 	return g.dist
 }
